@@ -200,8 +200,20 @@ def r3_buffer(prog, rep: Report, csvr: Cls):
               scenario="saving two records in a row: the second save() returns the first row again, both rows, or a string padded "
                        "with NUL characters (truncate(0) without seek(0) leaves the position behind)",
               line=probs[0][0] if probs else None)
-    keyed = all(isinstance(s.slice, ast.Name) and s.slice.id == "cls" for s in ast.walk(wf.node)
-                if isinstance(s, ast.Subscript) and "_writer" in src(s.value))
+    # where does the writer used for writerow come from?  every cached source must be a subscript keyed by cls
+    wvar = None
+    for n in walk_own(wf.node):
+        if isinstance(n, ast.Call) and isinstance(n.func, ast.Attribute) and n.func.attr == "writerow" and isinstance(n.func.value, ast.Name):
+            wvar = n.func.value.id
+    sources = []
+    for t, val, st in __import__("sa.util", fromlist=["iter_stores"]).iter_stores(wf.node):
+        if isinstance(t, ast.Name) and t.id == wvar and val is not None and not (isinstance(val, ast.Call) and "csv." in src(val.func)):
+            sources.append(val)
+    stores = [t for t, val, st in __import__("sa.util", fromlist=["iter_stores"]).iter_stores(wf.node)
+              if isinstance(val, ast.Name) and val.id == wvar and not isinstance(t, ast.Name)]
+    def _keyed(e):
+        return isinstance(e, ast.Subscript) and isinstance(e.slice, ast.Name) and e.slice.id == "cls"
+    keyed = bool(wvar) and all(_keyed(x) for x in sources) and all(_keyed(x) for x in stores) and (bool(sources) or bool(stores))
     rep.check("C13.R3", wf, "writer-cache", keyed, "writer cache keyed by cls", "the writer cache is not keyed by the record class",
               scenario="a TSV record is written with the CSV record's writer (wrong delimiter / field names)")
 
@@ -212,6 +224,13 @@ def r4_one_line(prog, rep: Report, csvr: Cls, jsonr: Cls):
     js = prog.method(jsonr, "save")
     rep.fn(js)
     dumps = [c for c in calls_in(js.node) if ext_name(prog, js, c) == "json.dumps"]
+    bad_kw = [k.arg for k in (dumps[0].keywords if dumps else []) if (k.arg == "ensure_ascii" and const_value(k.value, True) is not True)
+              or k.arg is None]
+    rep.check("C13.R4", js, "json-ascii", len(dumps) == 1 and not bad_kw, "json.dumps keeps ensure_ascii (every character outside ASCII is escaped)",
+              f"json.dumps is called with {bad_kw}: U+2028/U+2029/U+0085 are written raw (the record is no longer one line for "
+              f"str.splitlines()) and lone surrogates cannot be encoded when the file is saved",
+              scenario="a record with the string '\\u2028' or with a lone surrogate (os.fsdecode of a non-UTF-8 name): saving the "
+                       "mutable record file raises UnicodeEncodeError / the line is split")
     ok = len(dumps) == 1 and not any(k.arg == "indent" and const_value(k.value, 0) is not None for k in dumps[0].keywords) \
         and src(dumps[0].args[0]) == "asdict(self)" and all(src(r.value) == src(dumps[0]) for r in returns_of(js.node))
     rep.check("C13.R4", js, "json-one-line", ok, "json.dumps(asdict(self)) without indent",
@@ -267,6 +286,17 @@ def r5_record_layer(prog, rep: Report):
                   f"{c.short}._get_item -> {gi.short} -> {nxt.short if nxt else '?'}",
                   f"{c.short}: the record layer is not the first _get_item in the MRO (raw lines would be returned), or no raw reader follows it",
                   scenario="f[i] returns a str instead of a record (base order of the class swapped)")
+    from .c12 import writer_content_ok
+    mut = prog.cls("BaseMutableRandomLineAccessFile", FILES_MOD)
+    w = prog.method(mut, "_save_from_iter")
+    rep.fn(w)
+    for lp in [n for n in walk_own(w.node) if isinstance(n, ast.For)]:
+        for c in ast.walk(lp):
+            if isinstance(c, ast.Call) and src(c.func) == "print" and c.args:
+                okc, whyc = writer_content_ok(c.args[0], src(lp.target))
+                rep.check("C13.R5", w, "saved-line-unmodified", okc, "record lines are written unmodified (only a trailing '\\n' stripped)",
+                          whyc, scenario="a TSV record whose last field is empty or ends in blanks: the saved line loses them and the "
+                                         "reopened file fails to load the record", line=c.lineno)
     init = prog.method(base, "__init__")
     stores = [st for st in walk_own(init.node) if isinstance(st, ast.Assign) and dotted(st.targets[0]) == (init.self_name, "record_class")
               and src(st.value) == init.params[2]]
